@@ -1,5 +1,5 @@
 (* Crate/Corr.v — correspondence cases of the C34 check.  A case carries what the harness extracted from one
-   exported archive of a real run (the @graph array, the zip entries with digests and sizes, the run's
+   exported archive of a real run (the whole metadata document, the zip entries with digests and sizes, the run's
    workflow-level input/output values, the values produced by individual steps) and the verdict of the independent Python oracle written from the
    property text.  [check_case] evaluates the proven checker on the crate and compares the two verdicts. *)
 From Coq Require Import List Bool NArith.
@@ -8,9 +8,9 @@ From SF Require Export Crate.Checker.
 Import ListNotations.
 
 Inductive ccase :=
-| CCrate (g : graph) (ar : list entry) (vs : list rv) (ss : list sv) (oracle_ok : bool).
+| CCrate (m : json) (ar : list entry) (vs : list rv) (ss : list sv) (oracle_ok : bool).
 
 Definition check_case (c : ccase) : bool :=
   match c with
-  | CCrate g ar vs ss o => Bool.eqb (crate_ok g ar vs ss) o
+  | CCrate m ar vs ss o => Bool.eqb (doc_ok m ar vs ss) o
   end.
